@@ -50,6 +50,16 @@ class LocalHashFileDB(HashFileDB):
         # being ~5.5 times faster.
         return f"{self.path}{os.sep}{oid[0:2]}{os.sep}{oid[2:]}"
 
+    def exists(self, oid: str) -> bool:
+        # NOTE: an unprotected file may be a leftover of an interrupted add
+        # (e.g. empty file created by a reflink attempt), so, same as in
+        # `oids_exist()`, only trust objects that pass the integrity check.
+        try:
+            self.check(oid)
+        except (FileNotFoundError, ObjectFormatError):
+            return False
+        return True
+
     def oids_exist(self, oids, jobs=None, progress=noop):
         ret = []
         progress = partial(progress, "querying", len(oids))
